@@ -559,7 +559,7 @@ def replay_path(item):
             # ---- footprint (C09), on the implementation
             if before is not None and lab["act"] not in ("Close",):
                 after = h5snap.node_digests(snap)
-                d = _footprint(w, before, after, lab)
+                d = _footprint(w, before, after, lab, pre)
                 if d:
                     bad(f"footprint:{lab['act']}", d, "C09")
                     return viol
@@ -646,9 +646,12 @@ def _changed(before, after):
     return sorted(k for k in set(before) | set(after) if before.get(k) != after.get(k))
 
 
-def _footprint(w, before, after, lab):
-    """nodes whose stored content or child links changed must lie in the action's footprint."""
-    foot = {int(x) for x in lab["foot"]}
+def _footprint(w, before, after, lab, pre):
+    """nodes whose stored content or child links changed must lie in the action's footprint.
+    Nodes that were already unreachable from Root before the action (the recorded as-built finding: flat nodes left
+    behind by a removal through the parent) are outside the file a reader sees; their Type link stops resolving when
+    the last live user of the type is collected, so they are not held to the footprint."""
+    foot = {int(x) for x in lab["foot"]} | model_orphans(pre)
     allowed = set()
     for s in foot:
         uid = w.root_uid if s == 0 else w.slot2uid.get(s)
@@ -671,5 +674,11 @@ def _footprint(w, before, after, lab):
             if uid not in allowed:
                 offending.append(k)
     if offending:
-        return f"{lab['act']} changed stored items outside its footprint {sorted(foot)}: {offending}"
+        named = []
+        for k in offending:
+            parts = k.split("/")
+            uid = parts[1].split(":")[0] if len(parts) > 1 and not k.startswith("Types/") else None
+            slot = next((s2 for s2, u in w.slot2uid.items() if str(u) == uid), None)
+            named.append(f"{k} (slot {slot}; {'deleted' if k not in after else 'created' if k not in before else 'modified'})")
+        return f"{lab['act']} changed stored items outside its footprint {sorted(foot)}: {named}"
     return None
